@@ -50,11 +50,18 @@ def check(rec, kind, idx, rng, tier):
                     ydesc=bool(rng.random() < 0.5), xdesc=False)
         unit = 1.0
     chunks = gen.random_chunks((H, W), rng)
+    exact_multiple = metric != 'GREAT_CIRCLE' and rng.random() < 0.15
+    if exact_multiple:
+        # decimal cell size from coordinates with a non-zero origin: max_distance = k * cell is an exact number of cells only up to ulp noise
+        c_ = float(rng.choice([0.1, 0.3, 0.7, 1 / 3]))
+        geom.update(cx=c_, cy=c_, x0=float(rng.choice([10.0, -7.5, 100.25])), y0=float(rng.choice([5.0, -3.25])))
     dens = float(rng.choice([0.03, 0.1, 0.3]))
     img = np.where(rng.random((H, W)) < dens, rng.integers(1, 5, (H, W)), 0).astype(str(rng.choice(['float64', 'float64', 'int32', 'float32'])))
     mdc = str(rng.choice(['frac', 'one', 'k', 'k', 'k', 'extent', 'inf', 'default']))
     k = float(rng.choice([1.5, 2, 2.5, 3.7, 5]))
     base_cell = min(geom['cx'], geom['cy']) * unit
+    if exact_multiple:
+        mdc = 'k'; k = float(rng.choice([2, 3, 4, 5]))
     maxd = {'frac': 0.4 * base_cell, 'one': 1.0 * base_cell, 'k': k * base_cell,
             'extent': 3.0 * np.hypot(H * geom['cy'], W * geom['cx']) * unit, 'inf': np.inf, 'default': None}[mdc]
     # plant a target exactly on the halo edge of an interior chunk border
@@ -82,7 +89,7 @@ def check(rec, kind, idx, rng, tier):
     if tvals is not None: kw['target_values'] = tvals
     sname = str(rng.choice(['synchronous', 'threads1', 'threads2', 'threads4', 'threads16']))
     skw = dict(scheduler='synchronous') if sname == 'synchronous' else dict(scheduler='threads', num_workers=int(sname[7:]))
-    res = (geom['cx'], geom['cy']) if rng.random() < 0.3 else None
+    res = (geom['cx'], geom['cy']) if (rng.random() < 0.3 and not exact_multiple) else None
     rn = gen.mk(img, res=res, **geom); rd = gen.mk(img, res=res, chunks=chunks, **geom)
     pay = dict(func=fname, img=img, kwargs=kw, geom=geom, chunks=chunks, scheduler=sname, res=res, planted=planted)
     rec.evaluation()
@@ -124,6 +131,7 @@ def check(rec, kind, idx, rng, tier):
     if geom['cx'] != geom['cy']: rec.ok('cx!=cy')
     if planted: rec.ok('target_on_halo_edge')
     if zero_target: rec.ok('zero_as_explicit_target')
+    if exact_multiple: rec.ok('max_distance_exact_multiple_of_decimal_cell')
     if mdc in ('extent', 'inf', 'default'): rec.ok('single_block_fallback')
     if mdc == 'frac': rec.ok('fraction_of_a_cell')
     rec.ok('scheduler.' + ('synchronous' if sname == 'synchronous' else 'threads'))
